@@ -706,7 +706,7 @@ def _register_shared():
          cases=[dict(fn="auto", rr=True), dict(fn="auto", rr=False), dict(fn="cross", rand="ref"), dict(fn="cross", rand="unk"), dict(fn="cross", rand="both")])(_C01.u_wiring)
 
 
-_register_shared()
+# _register_shared() is called by the driver after this module is fully imported (no import cycles)
 
 
 
@@ -718,4 +718,4 @@ def _register_shared_cache():
          cases=[dict(prior=a, request=b) for a in ("left", "right") for b in ("left", "right")])(_C07.u_build)
 
 
-_register_shared_cache()
+# _register_shared_cache() is called by the driver after this module is fully imported (no import cycles)
